@@ -19,6 +19,7 @@ THEOREMS = [
     "Typedpy.C02.toDecimal_exact", "Typedpy.C02.toDecimal_reject", "Typedpy.C02.decimal_field_exact",
     "Typedpy.C02.decimal_field_reject", "Typedpy.C02.decimal_reads_decimal", "Typedpy.C02.constructD_complete",
     "Typedpy.C02.constructD_reject", "Typedpy.C02.decimal_example",
+    "Typedpy.C02.ipv4_field_chars", "Typedpy.C02.hostname_field_chars",
     "Typedpy.C02.bridge_instantiate_complete", "Typedpy.C02.bridge_instantiate_reject", "Typedpy.C02.bridge_example",
 ]
 RULE = ("classes from the type-directed declaration generator (depth <= 3/4, each constraint keyword p~0.35); "
